@@ -46,7 +46,7 @@ def group_op(kind, variant):
     return T("fetch_group_offsets", [G, [T("fgo", [T1, 0]), T("fgo", [T1, 1])]])
 
 
-def make_case(rng, kind, seq, limit, moved=False, endless=None, place=None):
+def make_case(rng, kind, seq, limit, moved=False, endless=None, place=None, sequel=False):
     nb, coord = place if place else (0, 0)
     nb = nb or rng.choice([2, 3])
     coord = coord or rng.randint(1, nb)
@@ -78,9 +78,14 @@ def make_case(rng, kind, seq, limit, moved=False, endless=None, place=None):
         key = "commit_script" if kind == "commit" else "group_fetch_script"
         spec[key] = spec.get(key, []) + list(seq)
     ops.append(group_op("fetch" if kind == "lookup" else kind, variant))
+    under = len(ops) - 1
+    if sequel and endless is None:
+        # a further group call on the same client: what the call under test left in the coordinator cache is used here
+        # (all scripts are used up by now: the brokers answer from their real state)
+        ops.append(group_op(rng.choice(["commit", "fetch"]), rng.randint(0, 1)))
     return {"cluster": spec, "ops": ops,
             "meta": {"kind": kind, "seq": list(seq)[:8], "limit": limit, "moved": bool(moved), "endless": endless is not None,
-                     "first": first, "storage": storage, "coord": coord}}
+                     "first": first, "storage": storage, "coord": coord, "under": under, "sequel": len(ops) - 1 > under}}
 
 
 def pick_limits(rng, tier, seq):
@@ -103,11 +108,11 @@ def gen(rng, tier):
             for limit in pick_limits(rng, tier, seq):
                 # thorough: two placements per (script, limit): a random one and one with the coordinator on the last of 3 brokers
                 for place in ([None] if tier == "quick" else [None, (3, 3)]):
-                    cases.append(make_case(rng, kind, seq, limit, place=place))
+                    cases.append(make_case(rng, kind, seq, limit, place=place, sequel=rng.random() < 0.5))
     for kind in ("commit", "fetch"):
         for seq in sequences(3 if tier == "quick" else 4):
             for limit in pick_limits(rng, tier, seq):
-                cases.append(make_case(rng, kind, seq, limit, moved=True))
+                cases.append(make_case(rng, kind, seq, limit, moved=True, sequel=rng.random() < 0.5))
     for kind in OPS:
         for code in RETRY:
             for limit in range(6):
@@ -261,8 +266,10 @@ def oracle(case, recs, cl):
             break
         item = case["ops"][i]
         op = item["op"] if isinstance(item, dict) else item
-        under_test = i == len(case["ops"]) - 1
-        tag = "%s%s limit=%d seq=%s" % (m["kind"], " moved" if m["moved"] else "", m["limit"], m["seq"]) if under_test else "preparing call"
+        under = m.get("under", len(case["ops"]) - 1)
+        under_test = i == under
+        tag = ("%s%s limit=%d seq=%s" % (m["kind"], " moved" if m["moved"] else "", m["limit"], m["seq"]) if under_test
+               else "preparing call" if i < under else "sequel call after %s limit=%d seq=%s" % (m["kind"], m["limit"], m["seq"]))
         f, cache = check_op(op, recs[i], m["limit"], cache, tag)
         fails += f
         if not f and under_test:
@@ -276,7 +283,7 @@ def oracle(case, recs, cl):
 def nontrivial(case, recs):
     if len(recs) < len(case["ops"]):
         return False
-    return any(code in RETRY for (_, _, code, _) in group_events(recs[-1]))
+    return any(code in RETRY for (_, _, code, _) in group_events(recs[case["meta"].get("under", -1)]))
 
 
 def stats(case, recs):
@@ -290,11 +297,13 @@ def stats(case, recs):
     else:
         s["script_len:%d" % len(m["seq"])] = 1
     if len(recs) == len(case["ops"]):
-        ev = group_events(recs[-1])
+        ev = group_events(recs[m.get("under", -1)])
         s["retryable_answers_faced"] = sum(1 for e in ev if e[2] in RETRY)
         s["relookups_after_16"] = sum(1 for a, b in zip(ev, ev[1:]) if a[0] != "group_coordinator" and a[2] == 16 and b[0] == "group_coordinator")
-        r = recs[-1]["impl"]
+        r = recs[m.get("under", -1)]["impl"]
         L = max(1, m["limit"])
+        if m.get("sequel"):
+            s["with_sequel_call"] = 1
         if r.name != "err":
             end = "success" if r.name == "ok" else r.name
         elif ev and ev[-1][2] in RETRY:
